@@ -222,8 +222,8 @@ def judge(job, res, mline, want_corr=True):
                                 short(c), gotc, '' if c['max'] is None else ' limited to the %s %d in file order' % ('first' if c['max'] >= 0 else 'last', abs(c['max'])), want)
                         else:
                             sig = {'kind': 'source-discovery', 'late_source': True, 'source_ids_given': c['src'] is not None}
-                            txt = ('read(%s) on a fresh loader returns %s; messages with source id(s) %s (first seen after the %d messages per type the reader samples) '
-                                   'are missing: every source in the log gives %s' % (short(c), gotc, late, G.PROBE, want))
+                            txt = ('read(%s) on a fresh loader returns %s; messages with source id(s) %s (not among those the reader discovered by sampling %d messages per type) '
+                                   'are missing%s: every source in the log gives %s' % (short(c), gotc, late, G.PROBE, '' if c['src'] is not None else ' although no source_ids were given', want))
                         cc = dict(case); cc.update({'spec_which': which, 'spec_want': want, 'impl_got': gotc, 'impl_without_max': show_impl(nm) if nm else None})
                         issues.append({'kind': 'violation', 'sig': sig, 'case': cc, 'text': txt})
                         break
